@@ -11,6 +11,8 @@ zero-length files, on fresh images and across write→open generations.  Decided
 """
 import random
 
+import io
+
 from harness import core, histcheck, isoapi
 from harness.props import c01
 
@@ -59,10 +61,106 @@ def post(ctx, c, rep):
         ctx.violation('C07.alloc/%s' % code, detail, rp)
 
 
+def probe_names(ctx):
+    """(a) two UDF names whose identifiers have the same bytes in different encodings (8-bit 'ab', 16-bit U+6162): removing one,
+    by any of its paths, removes exactly that one; (b) a hand-patched image in which the record of an EMPTY file names the
+    data extent of another file (other writers record an arbitrary extent for empty files): the two are different contents —
+    each reads its own bytes and removing one leaves the other"""
+    import struct
+    import pycdlib
+    rp = {'kind': 'probe-names'}
+    # (a)
+    for order in (('ab', '\u6162'), ('\u6162', 'ab')):
+        for how in ('rm_hard_link', 'rm_file', 'rm_file_iso'):
+            for reopen in (False, True):
+                with isoapi.frozen_time():
+                    iso = pycdlib.PyCdlib()
+                    iso.new(udf='2.60')
+                    iso.add_directory('/D', udf_path='/d')
+                    for k, nm in enumerate(order):
+                        iso.add_fp(io.BytesIO(b'content-%d' % k), 9, '/D/F%d.;1' % k, udf_path='/d/' + nm)
+                    if reopen:
+                        o = io.BytesIO()
+                        iso.write_fp(o)
+                        iso.close()
+                        iso = pycdlib.PyCdlib()
+                        iso.open_fp(io.BytesIO(o.getvalue()))
+                    victim = 1                      # the name that comes second in the directory
+                    try:
+                        if how == 'rm_hard_link':
+                            iso.rm_hard_link(udf_path='/d/' + order[victim])
+                        elif how == 'rm_file':
+                            iso.rm_file(udf_path='/d/' + order[victim])
+                        else:
+                            iso.rm_file(iso_path='/D/F%d.;1' % victim)
+                        o2 = io.BytesIO()
+                        iso.write_fp(o2)
+                        iso.close()
+                        g = pycdlib.PyCdlib()
+                        g.open_fp(io.BytesIO(o2.getvalue()))
+                        buf = io.BytesIO()
+                        g.get_file_from_iso_fp(buf, udf_path='/d/' + order[0])
+                        left = [c.file_identifier() for c in g.list_children(udf_path='/d') if c is not None]
+                        g.close()
+                        if buf.getvalue() != b'content-0' or len(left) != 1:
+                            ctx.violation('C07.twin-names/wrong-entry-removed', '%s of the UDF name %r beside its twin %r (reopen=%s): the survivor reads %r, directory holds %d names'
+                                          % (how, order[victim], order[0], reopen, buf.getvalue()[:12], len(left)), rp)
+                    except Exception as e:  # noqa
+                        ctx.violation('C07.twin-names/%s' % isoapi.exc_class(e), '%s of the UDF name %r beside its twin %r (reopen=%s) -> %r' % (how, order[victim], order[0], reopen, e), rp)
+                ctx.count(key=('twin-names', order, how, reopen), nontrivial=True, kind='probe:twin-names')
+    # (b)
+    for first in ('EMPTY', 'ZDATA'):
+        with isoapi.frozen_time():
+            iso = pycdlib.PyCdlib()
+            iso.new(joliet=3)
+            names = {'empty': '/%s.;1' % ('AAA' if first == 'EMPTY' else 'ZZZ'), 'data': '/MMM.;1'}
+            iso.add_fp(io.BytesIO(b''), 0, names['empty'], joliet_path='/e')
+            iso.add_fp(io.BytesIO(b'd' * 3700), 3700, names['data'], joliet_path='/m')
+            o = io.BytesIO()
+            iso.write_fp(o)
+            ext = iso.get_record(iso_path=names['data']).extent_location()
+            root = iso.pvd.root_directory_record().extent_location()
+            jroot = iso.joliet_vd.root_directory_record().extent_location()
+            iso.close()
+        img = bytearray(o.getvalue())
+        for base in (root, jroot):
+            off = 0
+            while off < 2048 and img[base * 2048 + off]:
+                pos = base * 2048 + off
+                ln = struct.unpack_from('<L', img, pos + 10)[0]
+                flags = img[pos + 25]
+                if ln == 0 and not (flags & 2):
+                    img[pos + 2: pos + 10] = struct.pack('<L', ext) + struct.pack('>L', ext)
+                off += img[pos]
+        try:
+            g = pycdlib.PyCdlib()
+            g.open_fp(io.BytesIO(bytes(img)))
+            b1, b2 = io.BytesIO(), io.BytesIO()
+            g.get_file_from_iso_fp(b1, iso_path=names['empty'])
+            g.get_file_from_iso_fp(b2, iso_path=names['data'])
+            if b1.getvalue() != b'' or b2.getvalue() != b'd' * 3700:
+                ctx.violation('C07.foreign-empty/shares-content', 'an empty file whose record names the extent of %s reads %d bytes, %s reads %d' % (
+                    names['data'], len(b1.getvalue()), names['data'], len(b2.getvalue())), rp)
+            else:
+                g.rm_file(iso_path=names['empty'])
+                b3 = io.BytesIO()
+                g.get_file_from_iso_fp(b3, iso_path=names['data'])
+                if b3.getvalue() != b'd' * 3700:
+                    ctx.violation('C07.foreign-empty/rm-removes-other', 'rm_file of the empty file changed %s' % names['data'], rp)
+            g.close()
+        except Exception as e:  # noqa
+            ctx.violation('C07.foreign-empty/%s' % isoapi.exc_class(e), 'image with an empty file recorded at the extent of another file: %r' % e, rp)
+        ctx.count(key=('foreign-empty', first), nontrivial=True, kind='probe:foreign-empty')
+
+
 def run(ctx):
+    probe_names(ctx)
     c01.run(ctx, focus='C07', post=post, n_quick=120, n_thorough=3000, opmix=MIX)
     c01.run(ctx, focus='C07', post=post, n_quick=80, n_thorough=2000, opmix=MIX, reopen_every=6)
 
 
 def replay(ctx, obj):
+    if obj.get('replay', obj).get('kind') == 'probe-names':
+        probe_names(ctx)
+        return [v['signature'] for v in ctx.violations]
     return c01.replay(ctx, obj, focus='C07', post=post)
